@@ -33,14 +33,15 @@ func init() { logrus.SetOutput(io.Discard) }
 // ---- scripted connection -----------------------------------------------------------------------
 
 type scriptConn struct {
-	mu      sync.Mutex
-	chunks  [][]byte
-	fail    bool
-	drained atomic.Bool // a Read was issued after the last chunk had been handed out
-	done    chan struct{}
-	closed  atomic.Bool
-	writes  [][]byte
-	yield   func()
+	mu       sync.Mutex
+	chunks   [][]byte
+	fail     bool
+	closeErr bool
+	drained  atomic.Bool // a Read was issued after the last chunk had been handed out
+	done     chan struct{}
+	closed   atomic.Bool
+	writes   [][]byte
+	yield    func()
 	// fault injection: the failWrite-th Write accepts failAccept bytes and returns a timeout
 	nwrites, failWrite, failAccept int
 }
@@ -99,6 +100,10 @@ func (timeoutErr) Temporary() bool { return true }
 func (c *scriptConn) Close() error {
 	if c.closed.CompareAndSwap(false, true) {
 		close(c.done)
+	}
+	if c.closeErr {
+		// e.g. a tls.Conn that cannot send its close_notify to a peer that is already gone
+		return errClosed
 	}
 	return nil
 }
@@ -189,12 +194,14 @@ func yielder(seed int64) func() {
 	}
 }
 
+var failCloseErr bool
+
 func runInbound(chunks [][]byte, fail bool, useOF bool, seed int64, slowConsumer bool) string {
 	y := yielder(seed)
 	if seed == 0 {
 		y = nil
 	}
-	conn := &scriptConn{chunks: chunks, fail: fail, done: make(chan struct{}), yield: y}
+	conn := &scriptConn{chunks: chunks, fail: fail, done: make(chan struct{}), yield: y, closeErr: fail && failCloseErr}
 	parser := &recParser{yield: y, useOF: useOF, inFlight: map[*byte]bool{}}
 	m := util.NewMessageStream(conn, parser)
 	pool := poolOf(m)
@@ -261,6 +268,9 @@ func runInbound(chunks [][]byte, fail bool, useOF bool, seed int64, slowConsumer
 	}
 	if !fail {
 		m.Shutdown <- true
+	} else {
+		// the failure is published ONCE: leave time for whatever the shutdown path may publish after the first error
+		time.Sleep(30 * time.Millisecond)
 	}
 	close(stop)
 	wg.Wait()
@@ -526,7 +536,9 @@ func parseChunks(s string) [][]byte {
 func init() {
 	// stream <chunks> <ok|fail> <rec|of> <seed> <slow 0/1>
 	runners["stream"] = func(a []string) string {
-		return runInbound(parseChunks(a[0]), a[1] == "fail", a[2] == "of", int64(atoi(a[3])), a[4] == "1")
+		// mode failc: the connection fails AND its Close() reports an error too
+		failCloseErr = a[1] == "failc"
+		return runInbound(parseChunks(a[0]), a[1] == "fail" || a[1] == "failc", a[2] == "of", int64(atoi(a[3])), a[4] == "1")
 	}
 	families["C10"] = func(c *Ctx) {
 		emit := func(stream []byte, chunks [][]byte, mode, parser string, slow int) {
@@ -625,6 +637,11 @@ func init() {
 			emit(s, chunkBy(s, 7), "fail", "rec", 0)
 		}
 		emit(nil, nil, "fail", "rec", 0)
+		for _, k := range []int{0, 3, 5, 17, 33} {
+			s := append(append([]byte(nil), base[:28]...), base[28:28+k]...)
+			emit(s, chunkBy(s, 7), "failc", "rec", 0)
+		}
+		emit(nil, nil, "failc", "rec", 0)
 		emit(nil, nil, "ok", "rec", 0)
 	}
 
@@ -747,45 +764,7 @@ func init() {
 	runners["concparse"] = func(a []string) string {
 		g := atoi(a[0])
 		seed := int64(atoi(a[1]))
-		sg := &swGen{r: newRand(seed)}
-		var frames [][]byte
-		for k := 0; k < swKinds; k++ {
-			for i := 0; i < 3; i++ {
-				fr, _ := sg.message(k)
-				frames = append(frames, fr)
-			}
-		}
-		ctx := &Ctx{rng: newRand(seed + 7), tier: "quick", stats: map[string]int{}, iso: true}
-		for _, gen := range ofGens {
-			gen(ctx)
-		}
-		n := 0
-		for _, l := range ctx.queue {
-			if !strings.HasPrefix(l, "api ") {
-				continue
-			}
-			p := strings.TrimPrefix(l, "api ")
-			if j := strings.LastIndex(p, ";!"); j > 0 && isTopLevel(p) {
-				if b := marshalProg(p[:j], p[j+2:]); len(b) >= 8 {
-					frames = append(frames, b)
-					n++
-				}
-			}
-			if n >= 150 {
-				break
-			}
-		}
-		// bundle-adds nested 1..6 deep around an echo request (a decoder that recurses into Parse)
-		for depth := 1; depth <= 6; depth++ {
-			prog := "m0=NewEchoRequest();$m0.Xid=77"
-			for d := 1; d <= depth; d++ {
-				prog += fmt.Sprintf(";a%d=BundleAdd(%d,x0000,3,~,[]);$a%d.Message=$m%d;m%d=NewBundleAdd($a%d);h%d=Header(4,4,8,%d);$m%d.Header=*$h%d",
-					d, d, d, d-1, d, d, d, 100+d, d, d)
-			}
-			if b := marshalProg(prog, fmt.Sprintf("m%d", depth)); len(b) >= 8 {
-				frames = append(frames, b)
-			}
-		}
+		frames := concFrames(seed)
 		one := func(fr []byte) string {
 			return guard(func() string {
 				outs := funcReg["Parse"].Call([]reflect.Value{reflect.ValueOf(append([]byte(nil), fr...))})
@@ -1052,6 +1031,10 @@ func init() {
 	families["C14"] = func(c *Ctx) {
 		if c.only == nil || c.only["xtalk"] {
 			line := fmt.Sprintf("xtalk %d %d", c.rng.Intn(100000), 1000000)
+			c.emit(line, runIsolatedOnce(line))
+		}
+		if c.only == nil || c.only["indep"] {
+			line := fmt.Sprintf("indep %d", c.rng.Intn(100000))
 			c.emit(line, runIsolatedOnce(line))
 		}
 		if c.only == nil || c.only["concdhcp"] {
@@ -1534,4 +1517,146 @@ func runOutbound(nprod, nmsg int, seed int64) string {
 		return "bad reframing"
 	}
 	return fmt.Sprintf("ok %d", cnt)
+}
+
+// concFrames: frames of every switch-sent kind from the independent encoder, the library's own encodings of API-built
+// top-level messages, and bundle-adds nested 1..6 deep
+func concFrames(seed int64) [][]byte {
+	sg := &swGen{r: newRand(seed)}
+	var frames [][]byte
+	for k := 0; k < swKinds; k++ {
+		for i := 0; i < 3; i++ {
+			fr, _ := sg.message(k)
+			frames = append(frames, fr)
+		}
+	}
+	ctx := &Ctx{rng: newRand(seed + 7), tier: "quick", stats: map[string]int{}, iso: true}
+	for _, gen := range ofGens {
+		gen(ctx)
+	}
+	n := 0
+	for _, l := range ctx.queue {
+		if !strings.HasPrefix(l, "api ") {
+			continue
+		}
+		p := strings.TrimPrefix(l, "api ")
+		if j := strings.LastIndex(p, ";!"); j > 0 && isTopLevel(p) {
+			if b := marshalProg(p[:j], p[j+2:]); len(b) >= 8 {
+				frames = append(frames, b)
+				n++
+			}
+		}
+		if n >= 150 {
+			break
+		}
+	}
+	// bundle-adds nested 1..6 deep around an echo request (a decoder that recurses into Parse)
+	for depth := 1; depth <= 6; depth++ {
+		prog := "m0=NewEchoRequest();$m0.Xid=77"
+		for d := 1; d <= depth; d++ {
+			prog += fmt.Sprintf(";a%d=BundleAdd(%d,x0000,3,~,[]);$a%d.Message=$m%d;m%d=NewBundleAdd($a%d);h%d=Header(4,4,8,%d);$m%d.Header=*$h%d",
+				d, d, d, d-1, d, d, d, 100+d, d, d)
+		}
+		if b := marshalProg(prog, fmt.Sprintf("m%d", depth)); len(b) >= 8 {
+			frames = append(frames, b)
+		}
+	}
+	return frames
+}
+
+// scribbleDeep overwrites everything reachable from v: every integer is complemented, every byte of every slice inverted
+// in place (pointers, interfaces, slices, arrays and unexported fields are followed)
+func scribbleDeep(v reflect.Value, seen map[uintptr]bool, depth int) {
+	if depth > 40 {
+		return
+	}
+	switch v.Kind() {
+	case reflect.Ptr:
+		if v.IsNil() || seen[v.Pointer()] {
+			return
+		}
+		seen[v.Pointer()] = true
+		scribbleDeep(v.Elem(), seen, depth+1)
+	case reflect.Interface:
+		if !v.IsNil() {
+			e := v.Elem()
+			if e.Kind() == reflect.Ptr {
+				scribbleDeep(e, seen, depth+1)
+			}
+		}
+	case reflect.Struct:
+		for i := 0; i < v.NumField(); i++ {
+			f := v.Field(i)
+			if !f.CanSet() && f.CanAddr() {
+				f = reflect.NewAt(f.Type(), unsafe.Pointer(f.UnsafeAddr())).Elem()
+			}
+			scribbleDeep(f, seen, depth+1)
+		}
+	case reflect.Slice, reflect.Array:
+		for i := 0; i < v.Len(); i++ {
+			scribbleDeep(v.Index(i), seen, depth+1)
+		}
+	case reflect.Uint8, reflect.Uint16, reflect.Uint32, reflect.Uint64, reflect.Uint:
+		if v.CanSet() {
+			v.SetUint(^v.Uint())
+		}
+	case reflect.Int8, reflect.Int16, reflect.Int32, reflect.Int64, reflect.Int:
+		if v.CanSet() {
+			v.SetInt(^v.Int())
+		}
+	case reflect.Bool:
+		if v.CanSet() {
+			v.SetBool(!v.Bool())
+		}
+	}
+}
+
+func init() {
+	// indep <seed>: independent values stay independent: every frame is parsed twice (from two copies); the second result
+	// is encoded; then everything reachable from the FIRST result is overwritten in place (as its owner may do); the
+	// second result must still encode to the same bytes, and a third parse of the frame must too
+	runners["indep"] = func(a []string) string {
+		frames := concFrames(int64(atoi(a[0])))
+		parse := func(fr []byte) (reflect.Value, bool) {
+			outs := funcReg["Parse"].Call([]reflect.Value{reflect.ValueOf(append([]byte(nil), fr...))})
+			if !outs[1].IsNil() || outs[0].IsNil() || (outs[0].Elem().Kind() == reflect.Ptr && outs[0].Elem().IsNil()) {
+				return reflect.Value{}, false
+			}
+			return outs[0].Elem(), true
+		}
+		n := 0
+		for k, fr := range frames {
+			res := guard(func() string {
+				m1, ok1 := parse(fr)
+				m2, ok2 := parse(fr)
+				if !ok1 || !ok2 {
+					return "skip"
+				}
+				b2, okb := marshalOf(m2)
+				if !okb {
+					return "skip"
+				}
+				scribbleDeep(m1, map[uintptr]bool{}, 0)
+				b2b, _ := marshalOf(m2)
+				if hx(b2) != hx(b2b) {
+					return fmt.Sprintf("frame %d (%s…): after the owner of one parsed copy overwrote it, the other copy encodes to %s… instead of %s…", k, hx(fr[:min(len(fr), 24)]), hx(b2b[:min(len(b2b), 48)]), hx(b2[:min(len(b2), 48)]))
+				}
+				m3, ok3 := parse(fr)
+				if !ok3 {
+					return fmt.Sprintf("frame %d (%s…): no longer parses after a parsed copy was overwritten", k, hx(fr[:min(len(fr), 24)]))
+				}
+				b3, _ := marshalOf(m3)
+				if hx(b3) != hx(b2) {
+					return fmt.Sprintf("frame %d (%s…): a later parse of the same frame encodes to %s… instead of %s…", k, hx(fr[:min(len(fr), 24)]), hx(b3[:min(len(b3), 48)]), hx(b2[:min(len(b2), 48)]))
+				}
+				return "ok"
+			})
+			if res == "ok" {
+				n++
+			} else if res != "skip" {
+				return "differ " + res
+			}
+		}
+		return fmt.Sprintf("same %d", n)
+	}
 }
